@@ -11,7 +11,7 @@ through wrappers with assumed contracts over the byte-offset model of spec/strmo
 a suffix of y - is a proof obligation; `for c in iter.by_ref()` desugared; `Chars::next` through a
 wrapper that adds a termination measure)."""
 from vf.unit import Unit
-from . import common
+from . import common, strrules
 
 NAME = 'lfp'
 PROPS = ['C17']
@@ -32,12 +32,6 @@ pub fn suffix_offset(whole: &str, suffix: &str) -> (r: usize)
     requires is_suffix(suffix@, whole@)
     ensures r as int == boff(whole@, whole@.len() - suffix@.len())
 { unimplemented!() }
-#[verifier::external_body]
-pub fn str_trim_end_matches<'a>(s: &'a str, c: char) -> (r: &'a str) ensures exists|n: int| 0 <= n <= s@.len() && r@ == s@.take(n) { unimplemented!() }
-#[verifier::external_body]
-pub fn str_trim_matches<'a>(s: &'a str, c: char) -> (r: &'a str) ensures exists|a: int, b: int| 0 <= a <= b <= s@.len() && r@ == s@.subrange(a, b) { unimplemented!() }
-#[verifier::external_body]
-pub fn str_trim<'a>(s: &'a str) -> (r: &'a str) ensures exists|a: int, b: int| 0 <= a <= b <= s@.len() && r@ == s@.subrange(a, b) { unimplemented!() }
 #[verifier::external_body]
 pub fn char_is_ascii_whitespace(c: char) -> (r: bool) { unimplemented!() }
 
@@ -97,18 +91,9 @@ def build(repo):
     LN = ("impl<'a> Iterator for LinkFormatParser<'a>", 'next')
     AN = ("impl<'a> Iterator for LinkAttributeParser<'a>", 'next')
     for F in (LN, AN):
-        u.replace_in(F, 'R34:str-is_empty', r'self\.inner\.is_empty\(\)', 'str_is_empty(self.inner)')
         u.replace_in(F, 'R36:chars-next', r'iter\.next\(\)', 'chars_next(&mut iter)', (1, 9))
         u.replace_in(F, 'R35:pointer-difference', r'iter\.as_str\(\)\.as_ptr\(\) as usize\s*-\s*([\w.]+)\.as_ptr\(\) as usize', r'suffix_offset(\1, iter.as_str())', (1, 3))
-        E = r'((?:[^\]\[.]|\.(?!\.))+?)'   # an index expression without `..`
-        u.replace_in(F, 'R34:place-slice-to', r'\((\w+)\[\.\.' + E + r'\]\)', r'str_to(\1, \2)', (0, 3))
-        u.replace_in(F, 'R34:slice-to', r'&?([\w.]+)\[\.\.' + E + r'\]', r'str_to(\1, \2)', (0, 3))
-        u.replace_in(F, 'R34:slice-from', r'&(\w+)\[' + E + r'\.\.\]', r'str_from(\1, \2)', (0, 3))
-        u.replace_in(F, 'R34:trim_end_matches', r"(\w+(?:\([^()]*\))?)\s*\.trim_end_matches\(([^()]*)\)", r'str_trim_end_matches(\1, \2)', (1, 3))
-        u.replace_in(F, 'R34:trim_matches', r"(\w+)\.trim_matches\(([^()]*)\)", r'str_trim_matches(\1, \2)', (0, 3))
-        u.replace_in(F, 'R34:trim', r"(\w+)\.trim\(\)", r'str_trim(\1)', (0, 3))
-        u.replace_in(F, 'R34:find-char', r"(\w+)\.find\(('(?:\\.|[^'\\])')\)", r'str_find_char(\1, \2)', (0, 3))
-        u.replace_in(F, 'R34:split_at', r"(\w+)\.split_at\((\w+)\)", r'str_split_at(\1, \2)', (0, 3))
+        strrules.apply(u, F)
     u.replace_in(LN, 'R34:is_ascii_whitespace', r'c\.is_ascii_whitespace\(\)', 'char_is_ascii_whitespace(c)')
     u.replace_in(LN, 'R35:for-by_ref', r'for c in iter\.by_ref\(\) \{', 'loop { let c_opt = chars_next(&mut iter); if c_opt.is_none() { break; } let c = c_opt.unwrap();')
     u.contract(("impl<'a> Unquote<'a>", 'new'), '        ensures r.state == UnquoteState::NotStarted, r.inner.remaining() == quoted_str@', props=PROPS)
